@@ -992,9 +992,11 @@ macro "c10_l0" : tactic =>
                · simp only [B0, ↓reduceIte]
                  by_cases C0 : tmax * sabs (sin (acos (smin c0r 1))) ≤ sabs (acos (smin c0r 1)) <;> simp only [C0, ↓reduceIte] <;> c10_fin
                · simp only [B0, ↓reduceIte]; c10_fin))
-set_option maxHeartbeats 1000000 in
-/-- **structure of `intermediate`** -/
-theorem intermediate_eq {α : Type} [Field α] [LinearOrder α] [IsStrictOrderedRing α] (tmin tmax : α)
+-- (the option is set for the section, not with `… in`, and the docstring sits on the theorem's own line, so that an error is
+--  reported at the line of `theorem intermediate_eq` and attributed to it by tools/lib.failing_theorems)
+section intermediateEq
+set_option maxHeartbeats 1000000
+/-- **structure of `intermediate`** (all 96 paths) -/ theorem intermediate_eq {α : Type} [Field α] [LinearOrder α] [IsStrictOrderedRing α] (tmin tmax : α)
     (sqrt sin cos acos : α → α) (q0 q1 q2 : Quat α) :
     Gen.C10.Quat.intermediate tmin tmax sqrt sin cos acos q0 q1 q2 =
       Gen.C10.Quat.normalize sqrt
@@ -1021,6 +1023,8 @@ theorem intermediate_eq {α : Type} [Field α] [LinearOrder α] [IsStrictOrdered
     · simp only [B2, ↓reduceIte]
       by_cases C2 : tmax * sabs (sin (acos (smin c2r 1))) ≤ sabs (acos (smin c2r 1)) <;> simp only [C2, ↓reduceIte] <;> c10_l0
     · simp only [B2, ↓reduceIte]; c10_l0
+end intermediateEq
+
 /-- `exp` of a pure quaternion over ℝ (max ≥ 1): `(cos θ, v sin θ / θ)` with θ = |v|; for θ = 0 it is the identity -/
 theorem exp_real (tmin tmax : ℝ) (htmax : 1 ≤ tmax) (p : Quat ℝ) :
     let θ := Real.sqrt (p.v.x * p.v.x + p.v.y * p.v.y + p.v.z * p.v.z)
@@ -1357,5 +1361,81 @@ end setRotation
 /-- non-vacuity (ℝ): from = (1,1,0), to = (-3,-3,0) — the pair on which the unpatched code returned the zero quaternion -/
 example : (⟨1, 1, 0⟩ : V3 ℝ) ≠ ⟨0, 0, 0⟩ ∧ (⟨-3, -3, 0⟩ : V3 ℝ) ≠ ⟨0, 0, 0⟩ := by
   constructor <;> (intro h; have := congrArg V3.x h; norm_num at this)
+
+/-! ## aliasing: the same object on both sides
+
+`q *= q`, `q = q * q`, `q /= q`, `q *= q.inverse ()`, `q *= ~q`, `q.setAxisAngle (q.v, a)`, `q.v = q.rotateVector (q.v)`,
+`q.setRotation (q.v, to)`, `slerp (q, q, t)` are extracted with ONE symbolic object standing on both sides, so a member
+function that reads an operand after having overwritten it (e.g. `r = r*q.r - …; v = r*q.v + …` in `operator*=`) yields
+a different definition here although it is identical for distinct operands. -/
+
+theorem Quat_mulAssign {α : Type} [CommRing α] (a b : Quat α) : Gen.C10.Quat.mulAssign a b = Gen.C10.Quat.mul a b := by
+  refine Quat.ext' ?_ ?_ ?_ ?_ <;> simp only [Gen.C10.Quat.mulAssign, Gen.C10.Quat.mul] <;> ring
+theorem Quat_mulAssignSelf {α : Type} [CommRing α] (a : Quat α) : Gen.C10.Quat.mulAssignSelf a = Gen.C10.Quat.mul a a := by
+  refine Quat.ext' ?_ ?_ ?_ ?_ <;> simp only [Gen.C10.Quat.mulAssignSelf, Gen.C10.Quat.mul] <;> ring
+theorem Quat_mulSelf {α : Type} [CommRing α] (a : Quat α) : Gen.C10.Quat.mulSelf a = Gen.C10.Quat.mul a a := by
+  refine Quat.ext' ?_ ?_ ?_ ?_ <;> simp only [Gen.C10.Quat.mulSelf, Gen.C10.Quat.mul] <;> ring
+theorem Quat_mulAssignInverseSelf {α : Type} [Field α] (a : Quat α) :
+    Gen.C10.Quat.mulAssignInverseSelf a = Gen.C10.Quat.mul a (Gen.C10.Quat.inverse a) := by
+  refine Quat.ext' ?_ ?_ ?_ ?_ <;> simp only [Gen.C10.Quat.mulAssignInverseSelf, Gen.C10.Quat.mul, Gen.C10.Quat.inverse] <;> ring
+theorem Quat_mulAssignConjSelf {α : Type} [CommRing α] (a : Quat α) :
+    Gen.C10.Quat.mulAssignConjSelf a = Gen.C10.Quat.mul a (Gen.C10.Quat.conj a) := by
+  refine Quat.ext' ?_ ?_ ?_ ?_ <;> simp only [Gen.C10.Quat.mulAssignConjSelf, Gen.C10.Quat.mul, Gen.C10.Quat.conj] <;> ring
+theorem Quat_divAssignSelf {α : Type} [Field α] (a : Quat α) : Gen.C10.Quat.divAssignSelf a = Gen.C10.Quat.div a a := by
+  refine Quat.ext' ?_ ?_ ?_ ?_ <;> simp only [Gen.C10.Quat.divAssignSelf, Gen.C10.Quat.div] <;> ring
+theorem Quat_divSelf {α : Type} [Field α] (a : Quat α) : Gen.C10.Quat.divSelf a = Gen.C10.Quat.div a a := by
+  refine Quat.ext' ?_ ?_ ?_ ?_ <;> simp only [Gen.C10.Quat.divSelf, Gen.C10.Quat.div] <;> ring
+theorem Quat_setAxisAngleAliasV {α : Type} [Field α] [LinearOrder α] [IsStrictOrderedRing α] (tmin tmax : α) (sqrt sin cos : α → α)
+    (q : Quat α) (a : α) :
+    Gen.C10.Quat.setAxisAngleAliasV tmin tmax sqrt sin cos q a = Gen.C10.Quat.setAxisAngle tmin tmax sqrt sin cos q q.v a := by
+  simp only [Gen.C10.Quat.setAxisAngleAliasV, Gen.C10.Quat.setAxisAngle]
+theorem Quat_rotateVectorAliasV {α : Type} [CommRing α] (q : Quat α) :
+    Gen.C10.Quat.rotateVectorAliasV q = ⟨q.r, Gen.C10.Quat.rotateVector q q.v⟩ := by
+  refine Quat.ext' ?_ ?_ ?_ ?_ <;> simp only [Gen.C10.Quat.rotateVectorAliasV, Gen.C10.Quat.rotateVector] <;> ring
+theorem Quat_slerpSame {α : Type} [Field α] [LinearOrder α] [IsStrictOrderedRing α] (teps : α) (sqrt sin : α → α) (atan2 : α → α → α)
+    (q : Quat α) (t : α) :
+    Gen.C10.Quat.slerpSame teps sqrt sin atan2 q t = Gen.C10.Quat.slerp teps sqrt sin atan2 q q t := by
+  simp only [Gen.C10.Quat.slerpSame, Gen.C10.Quat.slerp]
+theorem Quat_setRotationModAliasV {α : Type} [Field α] [LinearOrder α] [IsStrictOrderedRing α] (tmin tmax teps : α) (sqrt : α → α)
+    (q : Quat α) (vto : V3 α) :
+    Gen.C10.Quat.setRotationModAliasV tmin tmax teps sqrt q vto = Gen.C10.Quat.setRotationMod tmin tmax teps sqrt q q.v vto := by
+  simp only [Gen.C10.Quat.setRotationModAliasV, Gen.C10.Quat.setRotationMod]
+
+/-- `q / q = 1` for `q ≠ 0` — hence also for the aliased spellings `q /= q`, `q = q / q`, `q *= q.inverse ()` -/
+theorem Quat_div_self {α : Type} [Field α] (a : Quat α) (h : normSq a ≠ 0) :
+    Gen.C10.Quat.div a a = ⟨1, ⟨0, 0, 0⟩⟩ ∧ Gen.C10.Quat.divAssignSelf a = ⟨1, ⟨0, 0, 0⟩⟩ ∧
+    Gen.C10.Quat.divSelf a = ⟨1, ⟨0, 0, 0⟩⟩ ∧ Gen.C10.Quat.mulAssignInverseSelf a = ⟨1, ⟨0, 0, 0⟩⟩ := by
+  have e := (Quat_mul_inverse a h).1
+  refine ⟨?_, ?_, ?_, ?_⟩
+  · rw [Quat_div]; exact e
+  · rw [Quat_divAssignSelf, Quat_div]; exact e
+  · rw [Quat_divSelf, Quat_div]; exact e
+  · rw [Quat_mulAssignInverseSelf]; exact e
+
+/-- `slerp (q, q, t) = q` for a unit quaternion (both arguments the same object; θ = 0 takes the tiny-angle branch) -/
+theorem slerp_same {α : Type} [Field α] [LinearOrder α] [IsStrictOrderedRing α] (teps : α) (hteps : 0 < teps) (sqrt sin : α → α)
+    (atan2 : α → α → α) (hsqrt : SqrtSpec sqrt) (hat : ∀ x, 0 ≤ x → atan2 0 x = 0) (q : Quat α) (t : α) (hq : UnitQ q) :
+    Gen.C10.Quat.slerpSame teps sqrt sin atan2 q t = q ∧ Gen.C10.Quat.slerp teps sqrt sin atan2 q q t = q := by
+  have h0 : sqrt 0 = 0 := C08.sqrt_zero hsqrt
+  have hθ : Gen.C10.Quat.angle4D sqrt atan2 q q = 0 := by
+    simp only [Gen.C10.Quat.angle4D, sub_self, mul_zero, add_zero, h0]
+    have hnn : (0 : α) ≤ (q.r + q.r) * (q.r + q.r) + ((q.v.x + q.v.x) * (q.v.x + q.v.x) + (q.v.y + q.v.y) * (q.v.y + q.v.y) + (q.v.z + q.v.z) * (q.v.z + q.v.z)) := by
+      have := mul_self_nonneg (q.r + q.r); have := mul_self_nonneg (q.v.x + q.v.x)
+      have := mul_self_nonneg (q.v.y + q.v.y); have := mul_self_nonneg (q.v.z + q.v.z); linarith
+    rw [hat _ (hsqrt _ hnn).2, mul_zero]
+  have hs : Gen.C10.sinx_over_x teps sin 0 = 1 := by
+    simp only [Gen.C10.sinx_over_x, mul_zero, hteps, ↓reduceIte]
+  have e : Gen.C10.Quat.slerp teps sqrt sin atan2 q q t = q := by
+    rw [slerp_eq, hθ]
+    simp only [mul_zero, hs, div_one, one_mul]
+    have : lincomb (1 - t) q t q = q := by
+      simp only [lincomb]; apply Quat.ext' <;> simp only [] <;> ring
+    rw [this]; exact Quat_normalize_of_unit_simp sqrt hsqrt q hq
+  exact ⟨by rw [Quat_slerpSame]; exact e, e⟩
+/-- the real `atan2` satisfies the hypothesis of `slerp_same` -/
+example : ∀ x : ℝ, 0 ≤ x → ratan2 0 x = 0 := by
+  intro x hx
+  have : (⟨x, 0⟩ : ℂ) = (x : ℂ) := by apply Complex.ext <;> simp
+  simp only [ratan2, this]; exact Complex.arg_ofReal_of_nonneg hx
 
 end ImathVerif.C10
